@@ -45,3 +45,14 @@ Theorem C12_plain_sequence_fires_once : forall t mc ks v mode timeout,
   exists s', type_keys t mc (sq_activate mode timeout) ks = Ok (s', Some (v, ks, [])) /\ sq_seq s' = ks.
 Proof. exact plain_sequence_fires_once. Qed.
 Print Assumptions C12_plain_sequence_fires_once.
+
+(* the modifier-cancelling retry reaches the first tracked key: a sequence that is, or begins with, a modifier written as a plain
+   key is recognised although the pressed modifier carries its own modifier bit *)
+Theorem C12_backtrack_reaches_first_key : forall t mc v,
+  v <> KEY_OVERLAP_MARKER ->
+  backtrack t mc [v] 1 =
+    (let s := [if mc then N.land v MASK_KEYCODES else N.land v 64511] in
+     let r := get_or_descendant_exists t s in
+     if res_is_not r then (s, NotInTrie, true) else (s, r, false)).
+Proof. exact backtrack_reaches_first_key. Qed.
+Print Assumptions C12_backtrack_reaches_first_key.
